@@ -125,6 +125,7 @@ type run struct {
 	cmpCount             int
 	newViols             int
 	seenSig              map[string]bool
+	c28cause             map[common.Uint168]string // C28 (CR half): cause suffix that stays with a deposit book entry
 	faultCtx             string // what the last fault crossed; part of twin-divergence signatures
 	collapseSig          string // when set, every twin difference is reported under this one signature
 	twinProp, twinOracle string // property judged by the twin comparison (C22 after rollbacks, C23 after restarts)
@@ -428,6 +429,7 @@ func (r *run) connectBlock(b *types.Block, metas []txMeta) {
 	post := r.observe(r.primary)
 	r.reachProbes(pre, post, metas)
 	r.budgetAfterBlock(b, metas, pre, post)
+	r.c28AfterBlock(b, metas, pre, post)
 	if r.twin != nil {
 		r.compareTwin("block")
 	}
